@@ -13,7 +13,12 @@
 (*      unified: l \in {"first", "cont"}, r \in {"minus", "plus", "zero"}                           *)
 EXTENDS Naturals, Sequences
 
-CONSTANT Hack      \* which arms of the compensation are present: subset of {"undo", "pair"}
+CONSTANT Hack      \* the compensation: a subset of {"undo", "pair"} = which arms of the original three-armed match are
+                   \* present (the pinned code has both); {"v2"} = the repaired scheme: the empty half of a row is
+                   \* painted as a continuation row (no number, no increment) and the old-file counter moves when the
+                   \* left panel shows the first row of a removed line
+(* Each panel has a number field that may contain both placeholders ({nm} and {np}): a row shows four numbers,  *)
+(* ll lr (left panel: old, new) and rl rr (right panel: old, new); 0 = blank.                                  *)
 
 Dec(x) == IF x = 0 THEN 0 ELSE x - 1
 \* linenumbers_and_styles(state, increment) on counters (L, R): <<minus number, plus number, L', R'>>, 0 = no number
@@ -28,28 +33,30 @@ Step(row, L, R) ==
   IF row.v = "u" THEN
      LET st == IF row.l = "cont" THEN "Wrapped" ELSE CASE row.r = "minus" -> "Minus" [] row.r = "plus" -> "Plus" [] OTHER -> "Zero"
          a == LNS(st, TRUE, L, R)                     \* one call, both fields
-     IN [nl |-> a[1], nr |-> a[2], L |-> a[3], R |-> a[4]]
+     IN [ll |-> a[1], lr |-> a[2], rl |-> 0, rr |-> 0, L |-> a[3], R |-> a[4]]
   ELSE IF row.v = "z" THEN
      LET st == IF row.l = "cont" THEN "Wrapped" ELSE "Zero"
          a == LNS(st, FALSE, L, R)                    \* left panel: no increment, minus field only
          b == LNS(st, TRUE, a[3], a[4])               \* right panel: increments, plus field only
-     IN [nl |-> a[1], nr |-> b[2], L |-> b[3], R |-> b[4]]
+     IN [ll |-> a[1], lr |-> a[2], rl |-> b[1], rr |-> b[2], L |-> b[3], R |-> b[4]]
   ELSE
      LET mi == row.l # "none"   pi == row.r # "none"
          ls == IF row.l = "cont" THEN "MinusW" ELSE "Minus"      \* absent: HunkMinus(Unified, None)
          rs == IF row.r = "cont" THEN "PlusW" ELSE "Plus"
          \* paint_minus_or_plus_panel_line: an absent line is painted in the opposite state so that its field stays empty
-         a == LNS(IF mi THEN ls ELSE "Plus", FALSE, L, R)
-         b == LNS(IF pi THEN rs ELSE "Minus", TRUE, a[3], a[4])
-         L2 == IF ls = "MinusW" /\ rs = "Plus" /\ mi /\ ~pi THEN (IF "undo" \in Hack THEN Dec(b[3]) ELSE b[3])
+         v2 == "v2" \in Hack
+         a == LNS(IF mi THEN ls ELSE IF v2 THEN "Wrapped" ELSE "Plus", FALSE, L, R)
+         b == LNS(IF pi THEN rs ELSE IF v2 THEN "Wrapped" ELSE "Minus", TRUE, a[3], a[4])
+         L2 == IF v2 THEN (IF mi /\ ls = "Minus" THEN b[3] + 1 ELSE b[3])
+               ELSE IF ls = "MinusW" /\ rs = "Plus" /\ mi /\ ~pi THEN (IF "undo" \in Hack THEN Dec(b[3]) ELSE b[3])
                ELSE IF ls = "MinusW" THEN b[3]
                ELSE IF mi /\ pi THEN (IF "pair" \in Hack THEN b[3] + 1 ELSE b[3])
                ELSE b[3]
-     IN [nl |-> a[1], nr |-> b[2], L |-> L2, R |-> b[4]]
+     IN [ll |-> a[1], lr |-> a[2], rl |-> b[1], rr |-> b[2], L |-> L2, R |-> b[4]]
 
 RECURSIVE Run(_, _, _, _)
 Run(rows, i, L, R) == IF i > Len(rows) THEN <<>>
-                      ELSE LET x == Step(rows[i], L, R) IN <<[nl |-> x.nl, nr |-> x.nr]>> \o Run(rows, i + 1, x.L, x.R)
+                      ELSE LET x == Step(rows[i], L, R) IN <<[ll |-> x.ll, lr |-> x.lr, rl |-> x.rl, rr |-> x.rr]>> \o Run(rows, i + 1, x.L, x.R)
 
 \* ------------------------------- Obs ---------------------------------------------
 StartsOld(row) == IF row.v = "u" THEN row.l = "first" /\ row.r \in {"minus", "zero"} ELSE row.l = "first"
@@ -59,7 +66,20 @@ RECURSIVE CountOld(_, _), CountNew(_, _)
 CountOld(rows, i) == IF i = 0 THEN 0 ELSE CountOld(rows, i - 1) + (IF StartsOld(rows[i]) THEN 1 ELSE 0)
 CountNew(rows, i) == IF i = 0 THEN 0 ELSE CountNew(rows, i - 1) + (IF StartsNew(rows[i]) THEN 1 ELSE 0)
 \* the true numbers: a number only beside the first row of a line, old lines counted from L0, new from R0
-Want(rows, L0, R0) == [i \in 1..Len(rows) |->
-   [nl |-> IF StartsOld(rows[i]) THEN L0 + CountOld(rows, i - 1) ELSE 0,
-    nr |-> IF StartsNew(rows[i]) THEN R0 + CountNew(rows, i - 1) ELSE 0]]
+TrueOld(rows, i, L0) == IF StartsOld(rows[i]) THEN L0 + CountOld(rows, i - 1) ELSE 0
+TrueNew(rows, i, R0) == IF StartsNew(rows[i]) THEN R0 + CountNew(rows, i - 1) ELSE 0
+\* Does what row i shows (x: [ll, lr, rl, rr]) agree with the truth?  The panel a line is in shows its number; an
+\* unchanged line's numbers may be shown in either panel (each panel's format decides); the empty half of a row may
+\* repeat the number of the line beside it or show nothing; a continuation row shows nothing anywhere.
+\* fmt = <<lnm, lnp, rnm, rnp>>: which placeholders the left / right panel's number format contains (a number whose
+\* placeholder is absent cannot be shown)
+RowTrue(rows, i, L0, R0, x, fmt) ==
+  LET o == TrueOld(rows, i, L0) n == TrueNew(rows, i, R0) r == rows[i]
+      Is(shown, has, want) == shown = (IF has THEN want ELSE 0)
+  IN
+  IF r.v = "u" THEN x.ll = o /\ x.lr = n
+  ELSE IF r.v = "z" THEN Is(x.ll, fmt[1], o) /\ Is(x.lr, fmt[2], n) /\ Is(x.rl, fmt[3], o) /\ Is(x.rr, fmt[4], n)
+  ELSE /\ Is(x.ll, fmt[1], o) /\ Is(x.rr, fmt[4], n)
+       /\ x.lr \in {0, n} /\ x.rl \in {0, o}
+AllTrue(rows, L0, R0, shown, fmt) == Len(shown) = Len(rows) /\ \A i \in DOMAIN rows : RowTrue(rows, i, L0, R0, shown[i], fmt)
 =============================================================================
